@@ -1000,10 +1000,7 @@ func runC09MGet(c Case) (res obs.Result) {
 	}
 	// 3. the MGET
 	mark := rec.Len()
-	ctxM, cancelM := context.WithCancel(bg)
-	if c.Fail == "ctx" {
-		ctxM, cancelM = context.WithTimeout(bg, 40*time.Millisecond)
-	}
+	ctxM, cancelM := context.WithCancel(bg) // "ctx": the caller gives up (cancelM) once the waiters are in place
 	defer cancelM()
 	type oneOut struct {
 		val string
@@ -1086,7 +1083,9 @@ func runC09MGet(c Case) (res obs.Result) {
 		holdF.Release()
 		holdM.Release()
 	case "ctx":
-		// the caller gives up while the replies are held back
+		// the caller gives up while the replies are held back (a deadline would race with the set-up of the
+		// waiters on a loaded machine; cancelling at this point is the same event for the client)
+		cancelM()
 	default:
 		holdF.Release()
 		holdM.Release()
